@@ -80,7 +80,9 @@ fn float_eq(a: f64, b: f64) -> bool {
         diff < (f64::EPSILON * f64::MIN_POSITIVE)
     } else {
         // use relative error.
-        diff / (abs_a + abs_b) < f64::EPSILON
+        // The sum is capped so that it cannot overflow to infinity, which would
+        // make any two huge numbers compare as equal.
+        diff / (abs_a + abs_b).min(f64::MAX) < f64::EPSILON
     }
 }
 
